@@ -496,6 +496,103 @@ theorem undelegateCascade_inv {s : State} (h : TI s.graph s.ttl) (parent child :
   exact foldl_inv State.dropRecord (fun st : State => TI st.graph st.ttl) _
     (fun st d _ hst => dropRecord_inv hst d) _ h
 
+/-! ### cascading revocation -/
+
+theorem length_filter_partition {α : Type} (p : α → Bool) :
+    ∀ (l : List α), (l.filter p).length + (l.filter (fun x => !p x)).length = l.length
+  | [] => rfl
+  | a :: l => by
+    have ih := length_filter_partition p l
+    cases h : p a <;> simp [h] <;> omega
+
+/-- with enough fuel the breadth-first walk of `revoke_cascading` removes every record below the queued nodes:
+    what it revoked were records, and no surviving record hangs off a queued node or off the child of a revoked one -/
+theorem cascadeLoop_spec :
+    ∀ (fuel : Nat) (q : List Nat) (ds acc : List DelegRec), q.length + ds.length ≤ fuel →
+      ∃ new, (cascadeLoop fuel q ds acc).2 = acc ++ new ∧ (∀ d ∈ new, d ∈ ds) ∧
+        ∀ d ∈ (cascadeLoop fuel q ds acc).1, d ∈ ds ∧ d.parent ∉ q ∧ ∀ d' ∈ new, d.parent ≠ d'.child := by
+  intro fuel
+  induction fuel with
+  | zero =>
+    intro q ds acc hle
+    have hq : q = [] := List.eq_nil_of_length_eq_zero (by omega)
+    subst hq
+    exact ⟨[], by simp [cascadeLoop], fun _ h => (nomatch h),
+      fun d hd => ⟨by simpa [cascadeLoop] using hd, by simp, fun _ h => (nomatch h)⟩⟩
+  | succ n ih =>
+    intro q ds acc hle
+    cases q with
+    | nil =>
+      exact ⟨[], by simp [cascadeLoop], fun _ h => (nomatch h),
+        fun d hd => ⟨by simpa [cascadeLoop] using hd, by simp, fun _ h => (nomatch h)⟩⟩
+    | cons cur q0 =>
+      rw [cascadeLoop]
+      have hpart := length_filter_partition (fun d : DelegRec => decide (d.parent = cur)) ds
+      have hlen : (q0 ++ (ds.filter (fun d => decide (d.parent = cur))).map (·.child)).length +
+          (ds.filter (fun d => decide (d.parent ≠ cur))).length ≤ n := by
+        have : (ds.filter (fun d => decide (d.parent ≠ cur))) = ds.filter (fun x => !decide (x.parent = cur)) := by
+          congr 1; funext x; simp
+        rw [this]
+        simp only [List.length_append, List.length_map, List.length_cons] at hle ⊢
+        omega
+      obtain ⟨new', h1, h2, h3⟩ := ih _ _ (acc ++ ds.filter (fun d => decide (d.parent = cur))) hlen
+      refine ⟨ds.filter (fun d => decide (d.parent = cur)) ++ new', by rw [h1, List.append_assoc], ?_, ?_⟩
+      · intro d hd
+        rcases List.mem_append.mp hd with hd | hd
+        · exact (List.mem_filter.mp hd).1
+        · exact (List.mem_filter.mp (h2 d hd)).1
+      · intro d hd
+        obtain ⟨hm, hnq, hnew⟩ := h3 d hd
+        have hm' := List.mem_filter.mp hm
+        have hne : d.parent ≠ cur := by simpa using hm'.2
+        refine ⟨hm'.1, ?_, ?_⟩
+        · intro hin
+          rcases List.mem_cons.mp hin with h | h
+          · exact hne h
+          · exact hnq (List.mem_append_left _ h)
+        · intro d' hd'
+          rcases List.mem_append.mp hd' with hd' | hd'
+          · intro heq
+            exact hnq (List.mem_append_right _ (List.mem_map.mpr ⟨d', hd', heq.symm⟩))
+          · exact hnew d' hd'
+
+theorem mem_dropRecord_graph {s : State} {d : DelegRec} {e : Edge} :
+    e ∈ (s.dropRecord d).graph ↔
+      e ∈ s.graph ∧ ∀ sec ∈ d.secrets, ¬ (e.src = entNode d.child ∧ e.dst = secNode sec ∧ e.kind.isAccess = true) := by
+  unfold State.dropRecord
+  generalize d.secrets = secs
+  induction secs generalizing s with
+  | nil => simp
+  | cons sec rest ih =>
+    rw [List.foldl_cons, ih]
+    simp only [mem_dropAccess, List.mem_cons, forall_eq_or_imp]
+    constructor
+    · rintro ⟨⟨h1, h2⟩, h3⟩; exact ⟨h1, h2, h3⟩
+    · rintro ⟨h1, h2, h3⟩; exact ⟨⟨h1, h2⟩, h3⟩
+
+theorem mem_foldl_dropRecord_graph {e : Edge} :
+    ∀ (ds : List DelegRec) (s : State), e ∈ (ds.foldl State.dropRecord s).graph ↔
+      e ∈ s.graph ∧ ∀ d ∈ ds, ∀ sec ∈ d.secrets,
+        ¬ (e.src = entNode d.child ∧ e.dst = secNode sec ∧ e.kind.isAccess = true)
+  | [], s => by simp
+  | d :: rest, s => by
+    rw [List.foldl_cons, mem_foldl_dropRecord_graph rest, mem_dropRecord_graph]
+    simp only [List.mem_cons, forall_eq_or_imp]
+    constructor
+    · rintro ⟨⟨h1, h2⟩, h3⟩; exact ⟨h1, h2, h3⟩
+    · rintro ⟨h1, h2, h3⟩; exact ⟨⟨h1, h2⟩, h3⟩
+
+theorem dropRecord_delegs (d : DelegRec) (s : State) : (s.dropRecord d).delegs = s.delegs := by
+  unfold State.dropRecord
+  generalize d.secrets = secs
+  induction secs generalizing s with
+  | nil => rfl
+  | cons sec rest ih => rw [List.foldl_cons, ih]
+
+theorem foldl_dropRecord_delegs : ∀ (ds : List DelegRec) (s : State), (ds.foldl State.dropRecord s).delegs = s.delegs
+  | [], _ => rfl
+  | d :: rest, s => by rw [List.foldl_cons, foldl_dropRecord_delegs rest, dropRecord_delegs]
+
 /-! ### batch calls: every entry is decided on the same graph (the one left by `cleanup_expired_grants` at the call's instant) -/
 
 /-- same access-relevant part: graph, tracker, policy -/
@@ -745,13 +842,16 @@ theorem wrap_subp {s : State} (h : SubP s) (now req sec : Nat) : SubP (s.wrap no
 
 /-- re-opening: the tracker is replaced by its persisted copy (a superset), then expired grants are dropped -/
 theorem reopen_inv {s : State} (h : TI s.graph s.ttl) (hp : SubP s) (now : Nat) :
-    TI (s.reopen now).1.graph (s.reopen now).1.ttl ∧ SubP (s.reopen now).1 := by
+    TI (s.reopen now).1.graph (s.reopen now).1.ttl ∧ SubP (s.reopen now).1 ∧
+      ∀ e ∈ (s.reopen now).1.graph, e ∈ s.graph ∧ LiveAt now e := by
   unfold State.reopen
   have h1 : TI ({ s with ttl := s.pttl, delegs := s.pdelegs } : State).graph
       ({ s with ttl := s.pttl, delegs := s.pdelegs } : State).ttl :=
     h.mono (fun _ he => he) (fun _ _ t ht _ _ _ => hp t ht)
   have h2 : SubP ({ s with ttl := s.pttl, delegs := s.pdelegs } : State) := fun _ ht => ht
-  exact ⟨(h1.cleanup now).1, cleanup_subp h2 now⟩
+  exact ⟨(h1.cleanup now).1, cleanup_subp h2 now,
+    fun e he => ⟨cleanup_graph_sub ({ s with ttl := s.pttl, delegs := s.pdelegs } : State) now e he,
+                 (h1.cleanup now).2 e he⟩⟩
 
 /-- the history invariant: every edge issued with an expiry keeps its tracker entry, and every tracker entry is
     also in the persisted copy -/
@@ -815,7 +915,7 @@ theorem step_inv {s : State} (h : HI s) (t : Nat) (op : Op) : HI (step s t op).1
     · exact hp
     · exact hp.shrink (fun _ ht => ht) rfl
   | undelegateCascade p c => exact ⟨undelegateCascade_inv h p c, undelegateCascade_subp s p c⟩
-  | reopen => exact reopen_inv h hp t
+  | reopen => exact ⟨(reopen_inv h hp t).1, (reopen_inv h hp t).2.1⟩
 
 theorem run_inv : ∀ (h : List (Nat × Op)) (s : State), HI s → HI (run s h)
   | [], _, hs => hs
